@@ -54,8 +54,9 @@ func (w *vfWorld) vfHTTP(method, path, rawQuery, body string, hdr http.Header) (
 	for cid := range w.s.conns {
 		before[cid] = true
 	}
+	sp := zzvf.Spawned()
 	zzvf.RunUntilBlocked(func() { w.s.apiHandler(rec, req) }, func() bool { return true })
-	zzvf.DropSpawned()
+	zzvf.DropSpawnedFrom(sp)
 	var cl *vfClient
 	for cid, c := range w.s.conns {
 		if !before[cid] {
